@@ -77,6 +77,31 @@ def tasks(tier):
     return ts
 
 
+def _timed(acc, algo, items, B, opt):
+    """the invariant AT THE TIME a bin is opened (online heuristics): the items are given by name in arrival order, the bins list
+    their names in placement order, so the content of every earlier bin at the moment a later bin received its first item is known"""
+    case = {"algo": algo, "items": list(items), "B": B, "out": "Partition", "opt": opt, "fmt": "names", "timed": True}
+    obs = repo.call(case)
+    acc.ran(algo)
+    if obs[0] == "exc":
+        acc.violation(algo, cfg_str(case), inp_str(case), "raises", "a packing", obs[1:], case); return
+    bins, d = obs[1], obs[2]
+    pos = {nm: i for i, nm in enumerate(d.names_list if getattr(d, "names_list", None) else d.keys())}
+    try:
+        for j in range(1, len(bins)):
+            if not bins[j]:
+                continue
+            first = bins[j][0]; t = pos[first]
+            for i in range(j):
+                then = sum(d[x] for x in bins[i] if pos[x] < t)
+                if then + d[first] <= B:
+                    acc.violation(algo, cfg_str(case), inp_str(case), "any_fit_violated_when_the_bin_was_opened",
+                                  f"bin {i} held {then} when {d[first]} opened bin {j}: it fitted (<= {B})", [[d[x] for x in b] for b in bins], case)
+                    return
+    except KeyError:
+        acc.violation(algo, cfg_str(case), inp_str(case), "unknown_names_in_result", "the input names", bins, case)
+
+
 def _judge(acc, algo, items, B, opt):
     case = {"algo": algo, "items": list(items), "B": B, "out": "Partition", "opt": opt}
     obs = repo.call(case)
@@ -84,6 +109,8 @@ def _judge(acc, algo, items, B, opt):
     if obs[0] == "exc":
         acc.violation(algo, cfg_str(case), inp_str(case), "raises", "a packing", obs[1:], case); return 0
     bins = obs[1]
+    if algo in ("ff", "bf") and len(items) <= 8:
+        _timed(acc, algo, items, B, opt)
     sums = [sum(b) for b in bins]
     n = len(bins)
     for j in range(1, n):
@@ -138,4 +165,7 @@ def run_task(task):
 
 
 def replay(case, acc):
-    _judge(acc, case["algo"], case["items"], case["B"], case["opt"])
+    if case.get("timed"):
+        _timed(acc, case["algo"], case["items"], case["B"], case["opt"])
+    else:
+        _judge(acc, case["algo"], case["items"], case["B"], case["opt"])
